@@ -2,6 +2,7 @@ package props
 
 import (
 	"fmt"
+	"github.com/taurusgroup/multi-party-sig/pkg/party"
 
 	"github.com/taurusgroup/multi-party-sig/verif/fw"
 	"github.com/taurusgroup/multi-party-sig/verif/scen"
@@ -105,7 +106,7 @@ func runC01(c *fw.Ctx) {
 	signers := scen.DrawSubset(c.S, ids, t+1)
 	msg := scen.DrawMsg(c)
 	sid := []byte(c.Label("sid", "sign"))
-	ss := scen.NewSession(c, "sg", m.SignMk(signers, msg, sid, scen.SignPlain), nil)
+	ss := scen.NewSession(c, "sg", withRetry(c, "sg", len(signers), p, func() map[party.ID]scen.Mk { return m.SignMk(signers, msg, sid, scen.SignPlain) }), nil)
 	ss.Run(c, true)
 	c.Res.Desc = desc(p, n, t, fmt.Sprintf("hist=%s signers=%d/%d msglen=%d policy=%s", histS, len(signers), n, len(msg), ss.Net.Policy.Name()))
 	c.Res.DistinctID = c.Res.Desc + "|" + ss.DeliveryHash()
